@@ -394,6 +394,7 @@ EXPECT = {
   "write_ended_inside_pcm_frame"
  ],
  "C16": [
+  "c16_frame_numbers_beyond_127",
   "c16_block_longer_than_4608",
   "c16_uncodable_rate_refused",
   "c16_uncodable_depth_refused",
